@@ -3,7 +3,8 @@
 Nothing in /repo is edited: `taskiq.receiver.receiver.asyncio` is replaced by a module object that forwards to
 the real asyncio except for Queue / wait / create_task; the two semaphores and the finish event are logging
 subclasses; prefetcher / runner / callback are wrapped as *instance attributes* only to tag the running task
-with a role.  Every shim appends `[t_us, tag, a, b]` to one global raw log; `to_lts` maps the raw log to
+with a role; a task factory on the driver's loop logs every task created while a message's callback task is running
+(`bg.new i` / `bg.done i`: work spawned for message i).  Every shim appends `[t_us, tag, a, b]` to one global raw log; `to_lts` maps the raw log to
 events of coq/theories/RecvLTS.v (fail-closed: an unexpected raw sequence becomes an `EBad` marker that the
 caller reports as a rejected trace)."""
 import asyncio
@@ -98,6 +99,23 @@ def install(rmod, log, ident):
         def __getattr__(self, n):
             return getattr(asyncio, n)
 
+    def task_factory(loop, coro, **kw):
+        """every asyncio Task created on the loop while a message's callback task (or a task that one created) is the
+        running task is work spawned for that message - whatever API made it (create_task, ensure_future, loop.create_task):
+        `bg.new i` at creation, `bg.done i` from its done-callback"""
+        t = asyncio.Task(coro, loop=loop, **kw)
+        try:
+            cur = asyncio.current_task(loop)
+        except RuntimeError:
+            cur = None
+        owner = getattr(cur, "_vmsg", None) if cur is not None else None
+        if owner is not None:
+            t._vmsg = owner
+            log.add("bg.new", owner)
+            t.add_done_callback(lambda _t: log.add("bg.done", owner))
+        return t
+
+    log.loop.set_task_factory(task_factory)
     shim = Shim("asyncio_logging_shim")
     shim.Queue = LQueue
     shim.wait = wait
@@ -126,6 +144,7 @@ def wrap_receiver(r, log, ident, A, P):
         _vid = ident(message)
         t = asyncio.current_task()
         t._vrole = "cb"
+        t._vmsg = _vid                      # read by the task factory: tasks created from here on belong to this message
         # (fourth field: how the callback task ended, only when it ended in the cancelled state)
         t.add_done_callback(lambda _t: log.add("cb.done", _vid, "cancelled" if _t.cancelled() else None))
         log.add("cb.start", _vid)
@@ -146,6 +165,10 @@ LAST_CB = {}
 
 # ----------------------------------------------------------------------------------------------------------
 # raw log -> RecvLTS events (Coq literals)
+LTS_TAGS = frozenset(["STOP", "TAKE", "END", "RETURN", "fin?", "la.new", "semp.acq", "semp.rel", "sem.acq", "sem.rel", "poll", "exh",
+                      "q.put", "q.get", "spawn", "cb.end", "cb.done", "waited", "CUTMARK"])
+
+
 def to_lts(ev, limited):
     """Returns (list of Coq event literals, cut: bool).  Grouping rules (one LTS event = one task step):
          fin? b                          -> EPfCheck b
@@ -170,6 +193,11 @@ def to_lts(ev, limited):
             cut = True
         else:
             ev = [e for e in ev if e[1] != "CUTMARK"]
+    # only the shims' own entries take part in the grouping: everything else (cb.start, body.in/out, ack, ack.end, save, hook,
+    # hook.aw, bg.new, bg.done, CUT ...) is not an LTS event.  Dropped BEFORE grouping, because a sync task body logs
+    # body.in / body.out from its worker thread, and such an entry can land between the two raw entries of one task step
+    # (seen under load: a spurious EBad)
+    ev = [e for e in ev if e[1] in LTS_TAGS]
     out = []
     i, n = 0, len(ev)
     first_la = True
@@ -268,6 +296,5 @@ def to_lts(ev, limited):
             out.append("ERnWaited %s" % ("AllDone" if a == 0 else "Timeout"))
         elif t == "exh":
             bad("stray exh")
-        # everything else (cb.start, body.in/out, ack, save, hook, CUT ...) is not an LTS event
         i += 1
     return out, cut
